@@ -317,7 +317,45 @@ fn d_check(prev: &Dump, st: &Stmt, next: &Dump) -> Vec<DFail> {
         _ => {}
     }
     // map order / key identity oracle
+    // KTuple::make_sub_tuple: "the result will always be a subset of the input tuple"
     if let E::Op(name, args) = st.expr() {
+        if name == "h_subtuple" && args.len() == 3 && is_path(&args[0]) {
+            if let (Some(V::T(xs)), E::Imm(V::I(a)), E::Imm(V::I(b)), Some(r)) = (eval_path(prev, &args[0]), &args[1], &args[2], &next.result) {
+                let (a, b, n) = (*a as usize, *b as usize, xs.len());
+                let want = if a <= b && b <= n { V::T(xs[a..b].to_vec()) } else { V::Null };
+                if erase_ids(r) != erase_ids(&want) {
+                    let f6 = if b > n && *r != V::Null { Some("F-C14-6") } else { None };
+                    fail("immutables_frozen(sub-tuple bounds)", format!("make_sub_tuple({}..{}) of a {}-element tuple returned {}", a, b, n, r.canon()), f6);
+                }
+            }
+        }
+    }
+    // host-API operations are judged by the same laws as their script counterparts
+    let normalized: Option<(String, Vec<E>)> = match st.expr() {
+        E::Op(name, args) => match name.as_str() {
+            "h_insert" => Some(("insert".into(), args.clone())),
+            "h_remove" => Some(("remove".into(), args.clone())),
+            "h_get" => Some(("get".into(), args.clone())),
+            "h_clear" => Some(("clear".into(), args.clone())),
+            "h_remove_path" => match (args.first(), args.get(1)) {
+                // KMap::remove_path("a.b.x") = remove "x" from the map reached through keys a, b
+                (Some(p), Some(E::Imm(V::S(path)))) if is_path(p) => {
+                    let segs: Vec<&[u8]> = path.split(|b| *b == b'.').collect();
+                    let mut target = p.clone();
+                    let mut ok_path = true;
+                    for seg in &segs[..segs.len() - 1] {
+                        target = op("get", vec![target, imm(V::S(seg.to_vec()))]);
+                        ok_path &= eval_path(prev, &target).is_some_and(|v| map_of(prev, &v).is_some());
+                    }
+                    if ok_path { Some(("remove".into(), vec![target, imm(V::S(segs[segs.len() - 1].to_vec()))])) } else { None }
+                }
+                _ => None,
+            },
+            _ => Some((name.clone(), args.clone())),
+        },
+        _ => None,
+    };
+    if let Some((name, args)) = &normalized {
         let overwritten = match st {
             Stmt::Let(n, _) => args.first().and_then(|t| t.root_var()) == Some(*n),
             Stmt::Clo(n, _) => args.first().and_then(|t| t.root_cap()) == Some(*n),
